@@ -54,8 +54,16 @@ def scene_xml(c, r, drop=()):
   second = ""
   if c["second"]:
     second = '<flexcomp name="g" type="grid" count="3 1 1" spacing="0.1 0.1 0.1" pos="1.3 1.2 0.5" dim="1" mass="0.5" radius="0.01"><edge equality="true"/><pin id="0"/></flexcomp>'
+  rider = sensors = ""
+  if c.get("rider"):
+    # a free sphere that never touches the flex, declared last (its geom is the model's last geom): pressed 3 mm into the obstacle plane, or in free fall
+    top = 0.5 - halfz - 0.015 + 0.004
+    z = top + 0.05 - 0.003 if c["obstacle"] == "plane" else top + 0.4
+    rider = f'<body name="rider" pos="1.0 -0.6 {z:.5f}"><freejoint/><geom name="rg" size="0.05" condim="{c["condim"]}"/><site name="rs" size="5"/></body>'
+    sensors = ('<sensor><touch site="rs"/><force site="rs"/><torque site="rs"/><contact body1="rider" data="found force" reduce="maxforce"/>'
+               '<contact geom1="rg" data="found dist" reduce="mindist"/><contact site="rs" data="found"/></sensor>')
   return (f'<mujoco><option cone="{c["cone"]}" jacobian="{c["jacobian"]}" timestep="0.002" gravity="0 0 -9.81"/><size memory="20M"/>'
-          f'<worldbody>{obstacle}{flex}{second}</worldbody></mujoco>')
+          f'<worldbody>{obstacle}{flex}{second}{rider}</worldbody>{sensors}</mujoco>')
 
 
 def contact_key(cn, i):
@@ -313,8 +321,18 @@ def _chunk(args):
         cmp.bad.append(("nefc@zero_jacobian_contact_row", float(len(zc)), 0.0))
         cmp.nfields += 1
         comparable_dyn = False
+      # stage 3b: the rider's sensors (touch, force, torque, contact sensors): the rider touches at most the plane, so whatever the flex's own contacts
+      # look like its sensors must read what MuJoCo's read (flex contacts have no geom on the flex side and belong to no body)
+      if c.get("rider") and mjm.nsensordata and np.isfinite(d.qacc.numpy()[w]).all():
+        ssc = max(1.0, float(np.abs(mjd.sensordata).max()))
+        sd = d.sensordata.numpy()[w]
+        cmp.close("sensordata", sd[:-1], mjd.sensordata[:-1], 5e-3, scale=ssc)
+        if not kinds and len(ca_all) == len(cb_all):  # the last sensor counts every contact inside a site that contains the scene: only where the contact lists agree
+          cmp.close("sensordata", sd[-1:], mjd.sensordata[-1:], 5e-3, scale=ssc)
+        if "sensor" in rec["feeds"] and not mjd.sensordata[0] > 0:
+          vac.append("sensor")
       # stage 4: dynamics
-      if comparable_dyn and passive_ok and not [b for b in cmp.bad if "zero_jacobian_equality" not in b[0]]:
+      if comparable_dyn and passive_ok and not [b for b in cmp.bad if "zero_jacobian_equality" not in b[0] and not b[0].startswith("sensordata")]:
         sc = max(1.0, float(np.abs(mjd.qfrc_constraint).max()), float(np.abs(mjd.qfrc_passive).max()))
         cmp.close("qfrc_constraint", d.qfrc_constraint.numpy()[w], mjd.qfrc_constraint, 5e-3, scale=sc)
         cmp.close("qacc", d.qacc.numpy()[w], mjd.qacc, 5e-3, scale=float(np.abs(mjd.qacc).max()))
@@ -322,7 +340,7 @@ def _chunk(args):
       out.append(("skip:mujoco_fatal_error", None, None))
       continue
     # stage 5: three steps (lock-step; stops as soon as a contact with a non-plane geom arises: those contacts are a finding of stage 3)
-    if comparable_dyn and not [b for b in cmp.bad if "zero_jacobian_equality" not in b[0]]:
+    if comparable_dyn and not [b for b in cmp.bad if "zero_jacobian_equality" not in b[0] and not b[0].startswith("sensordata")]:
       mds = []
       for w in range(nworld):
         mjd = mujoco.MjData(mjm)
@@ -350,11 +368,11 @@ def _chunk(args):
 def run(ctx: core.Ctx):
   ctx.rule = ("FlexFamily.tla: one flexcomp grid (dim 1/2/3, three sizes; dof full / radial / trilinear; edge equality none / edge / strain / vert; "
               "elasticity with damping and the 2D variants; edge stiffness and damping; pins; self-collision modes; internal collision; an obstacle "
-              "geom of 6 types overlapping the lowest layer; condim, margin, cone, Jacobian; optional second flex; 1..2 worlds with distinct "
+              "geom of 6 types overlapping the lowest layer; condim, margin, cone, Jacobian; optional second flex; optional free rigid rider with touch / force / torque / contact sensors that never touches the flex; 1..2 worlds with distinct "
               "states of three amplitudes) with the spec's verdicts CompileOK / Accepted / Unsupported and the stages each feature feeds. Replay: "
               "the compiler's and put_model's verdicts must be the spec's; for accepted models flexvert_xpos, edge lengths and velocities, passive "
               "forces (against MuJoCo, and against MuJoCo without the features the spec lists as dropped), contact points (MuJoCo's coinciding "
-              "contacts counted once), equality rows (pos, margin, D, aref, J), then qfrc_constraint, qacc and 3 steps are compared per world")
+              "contacts counted once), equality rows (pos, margin, D, aref, J), the rider's sensordata, then qfrc_constraint, qacc and 3 steps are compared per world")
   ctx.tlc("FlexFamily", "MC_FlexFamily.cfg", timeout=900)
   n = 300 if ctx.quick else 6000
   r = ctx.tlc("Gen_FlexFamily", "Gen_FlexFamily.cfg", gen=gen(n), workers=1, simulate="num=1", depth=n + 1, seed=ctx.seed % (1 << 30), timeout=900)
